@@ -30,6 +30,10 @@ HOT_FILES = (
     "_compatibility/_culture_data.py", "calendars/_era.py", "time_zones/_tzdb_date_time_zone_source.py",
     "text/_local_time_pattern.py", "text/_local_date_pattern.py", "text/_local_date_time_pattern.py", "text/_offset_pattern.py",
     "text/_duration_pattern.py", "text/_instant_pattern.py", "text/_annual_date_pattern.py",
+    "_compatibility/_interop.py", "_compatibility/_calendar_data.py", "_compatibility/_date_time_format_info.py",
+    "_compatibility/_icu_locale_data.py", "_compatibility/_number_format_info.py", "text/_pattern_bcl_support.py",
+    "time_zones/_precalculated_date_time_zone.py", "time_zones/_standard_daylight_alternating_map.py", "time_zones/_zone_recurrence.py",
+    "_zoned_clock.py",
 )  # fmt: skip
 MAX_STEPS = 2_000_000
 COARSE_FILES = ("time_zones/io/_tzdb_stream_field.py", "time_zones/io/_date_time_zone_reader.py", "utility/_preconditions.py",
@@ -219,6 +223,12 @@ def do_op(op, env):
         m = zone.map_local(ldt)
         z = ldt.in_zone_leniently(zone)
         return [m.count, _ns(z.to_instant()), z.offset.seconds, z.time_of_day.nanosecond_of_day], None
+    if k == "plusm":
+        # date arithmetic with ordinary and extreme amounts: a call that fails must not leave anything behind
+        cal = P.CalendarSystem.for_id(op[1])
+        d = P.LocalDate(op[2], op[3], op[4], cal)
+        r = {"m": d.plus_months, "y": d.plus_years, "d": d.plus_days, "w": d.plus_weeks}[op[5]](op[6])
+        return [r.year, r.month, r.day], None
     if k == "conv":
         a = P.CalendarSystem.for_id(op[1])
         b = P.CalendarSystem.for_id(op[5])
@@ -498,6 +508,15 @@ def build_pool(master_seed, scale=1.0):
                     ops.append(["dera", cal, y, m, d])
                 if rng.random() < 0.25:
                     ops.append(["conv", cal, y, m, d, rng.choice(list(CAL_RANGE))])
+                if rng.random() < 0.35:
+                    # amounts: small; exactly the distances at which keys alias in the year cache (1024 years: same slot;
+                    # 131072 years: same slot and same 7-bit validator); far out of range
+                    unit = rng.choice(["m", "m", "y", "d"])
+                    per = {"m": 12, "y": 1, "d": 365}[unit]
+                    amt = rng.choice([rng.randrange(-30, 30), 1024 * per, -1024 * per, 131072 * per, -131072 * per,
+                                      131072 * per + rng.randrange(-14, 14), -131072 * per + rng.randrange(-14, 14),
+                                      262144 * per + rng.randrange(-14, 14), 10**7, -(10**7), 2**31, -(2**31)])  # fmt: skip
+                    ops.append(["plusm", cal, y, rng.randrange(1, 13), d, unit, amt])
             # day-number -> date near the start of aliasing ISO years
             for y in ys[:3]:
                 if -9000 < y < 9000:
@@ -1100,7 +1119,7 @@ def _prewarm(spec):
         P.DateTimeZone.utc  # noqa: B018
     if "cal" in w:
         for op in ops:
-            if op[0] in ("date", "ylen", "mlen", "fromdays", "dera", "calid", "eras", "erayear", "conv"):
+            if op[0] in ("date", "ylen", "mlen", "fromdays", "dera", "calid", "eras", "erayear", "conv", "plusm"):
                 try:
                     P.CalendarSystem.for_id(op[1])
                 except Exception:  # noqa: BLE001
